@@ -20,6 +20,20 @@ type JV struct {
 	B    bool     `json:"b,omitempty"`
 	Keys []string `json:"keys,omitempty"` // obj
 	E    []JV     `json:"e,omitempty"`    // arr elements | obj values | fn return value | sp arguments
+	// Re makes the value re-entrant: converting it runs script code (its toString, or the getter of
+	// its property number Get) that first calls the function under test, f, with these arguments.
+	Re    []JV `json:"re,omitempty"`
+	Get   int  `json:"get,omitempty"`
+	HasRe bool `json:"hasRe,omitempty"`
+}
+
+// reenter is the script text of the nested call (its failure is the nested call's own business).
+func (v JV) reenter() string {
+	var a []string
+	for _, x := range v.Re {
+		a = append(a, x.Src())
+	}
+	return "try { f(" + strings.Join(a, ",") + ") } catch (e) {}"
 }
 
 func JNum(x float64, form string) JV { return JV{K: "num", N: NumLit(x), Form: form} }
@@ -187,6 +201,10 @@ func (v JV) Src() string {
 			if i > 0 {
 				b.WriteByte(',')
 			}
+			if v.HasRe && i == v.Get { // an accessor property whose getter re-enters f
+				b.WriteString("get " + JSString(k) + "(){ " + v.reenter() + "; return " + v.E[i].Src() + " }")
+				continue
+			}
 			b.WriteString(JSString(k))
 			b.WriteByte(':')
 			b.WriteString(v.E[i].Src())
@@ -226,6 +244,9 @@ func (v JV) Src() string {
 		case "boolobj":
 			return "(new Boolean(false))"
 		case "tostr":
+			if v.HasRe {
+				return "({toString:function(){ " + v.reenter() + "; return " + arg(0) + " }})"
+			}
 			return "({toString:function(){return " + arg(0) + "}})"
 		case "valof":
 			return "({valueOf:function(){return " + arg(0) + "}})"
@@ -249,6 +270,13 @@ func (v JV) Src() string {
 				a = append(a, e.Src())
 			}
 			return "(function(){return arguments})(" + strings.Join(a, ",") + ")"
+		}
+		if strings.HasPrefix(v.S, "gosl:") { // a bridged Go slice / *array of that element kind holding these numbers
+			var a []string
+			for _, e := range v.E {
+				a = append(a, strconv.Quote(CanonFloat(e.Float())))
+			}
+			return "__gosl(" + strconv.Quote(v.S[5:]) + ", [" + strings.Join(a, ",") + "])"
 		}
 		if strings.HasPrefix(v.S, "go:") {
 			return "G_" + v.S[3:]
@@ -287,6 +315,32 @@ func (v JV) IsObject() bool { return v.K == "arr" || v.K == "obj" || v.K == "fn"
 
 // IsGo: a pre-bridged Go object.
 func (v JV) IsGo() bool { return v.K == "sp" && strings.HasPrefix(v.S, "go:") }
+
+// IsGoList: a bridged Go slice / array built for the case ("gosl:<elemkind>" or "gosl:*<elemkind>" for a pointer to an array).
+func (v JV) IsGoList() bool { return v.K == "sp" && strings.HasPrefix(v.S, "gosl:") }
+
+// GoListElems are the elements of a bridged Go list as numbers that originate in Go.
+func (v JV) GoListElems() []JV {
+	kind := strings.TrimPrefix(strings.TrimPrefix(v.S, "gosl:"), "*")
+	var out []JV
+	for _, e := range v.E {
+		out = append(out, JNum(e.Float(), "go:"+kind))
+	}
+	return out
+}
+
+// HasReentry: converting the value calls the function under test again.
+func (v JV) HasReentry() bool {
+	if v.HasRe {
+		return true
+	}
+	for _, e := range v.E {
+		if e.HasReentry() {
+			return true
+		}
+	}
+	return false
+}
 
 // ---- ES5 conversions of specified values (9.1-9.3, 9.8) -------------------------------------------
 
